@@ -16,7 +16,8 @@ def run(tier, seed, replay=None):
     c = rep.counters
     for name, minimum in {'quiescent_points_judged': 80, 'quiescent_queries_compared': 3000, 'history_cache_hits': 200,
                           'tx_hashes_cache_hits': 30, 'step:reorg': 20, 'step:reorg_same_height': 10, 'step:forced_reorg': 15,
-                          'session_reorg_signals': 30, 'query:get_history': 50, 'query:id_from_pos': 30}.items():
+                          'session_reorg_signals': 30, 'query:get_history': 50, 'query:id_from_pos': 30,
+                          'step:same_height_switch_with_new_branch_spends': 5}.items():
         rep.floor(name, c[name], minimum)
     return rep.finish(
         rule='the C07 scenarios with a querying session that issues cache-populating requests (get_history, get_balance, listunspent, '
